@@ -5,8 +5,15 @@ PROP = {
     "glue": "GH", "chk": "chk03", "explain": "explainH",
     "gotags": ["shim_memory", "shim_redis", "shim_timecache"],
     "n": {"quick": 120, "thorough": 3000},
-    "rule": HIST_RULE + " Emphasis C03: announce/scrape/store-op mix; every scrape, response count, delete result and membership dump is compared.",
+    "rule": HIST_RULE + " Emphasis C03: same infohash, peer ID and port announced in both families in every history.",
     "tags": HIST_TAGS, "reasons": HIST_REASONS, "assumptions": HIST_ASSUMPTIONS,
     "trivial_tags": [], "min_tags": 4,
-    "explanation": "placeholder",
+    "explanation": "Coq theorems: an announce never changes the swarm of the other family (any infohash), the memory store's shard halves separate the families, the stores refine the family-keyed specification (C01); wire formats are covered by the C08/C09 theorems. Tied to the code by histories that use the same infohash/ID/port in both families: returned peers must have the requester's address length, the right response list must be filled, and stored memberships must sit in a swarm of their own family.",
+}
+
+CLAIM = {
+    "text": "Coq theorems: an announce never changes the swarm of the other family (any infohash), the memory store's shard halves separate the families, the stores refine the family-keyed specification (C01); wire formats are covered by the C08/C09 theorems. Tied to the code by histories that use the same infohash/ID/port in both families: returned peers must have the requester's address length, the right response list must be filled, and stored memberships must sit in a swarm of their own family.",
+    "design_ref": "DESIGN.md section 8, C03",
+    "note": 'Trusted: as C01. IPv4-mapped sources are folded by the frontends before the logic sees them (C06/C07/C11 cover that); compact/dictionary/UDP entry widths are C08/C09.',
+    "technique": "Coq refinement/invariant proofs over executable Gallina store models + differential history correspondence (vm_compute)",
 }
